@@ -1,0 +1,12 @@
+//go:build verif
+
+package search
+
+// VerifSetCandSourceHook installs fn as the candidate-source test hook (called with the name of the candidate
+// source the planner picked for each query) and returns the previous hook. It exists only under the "verif"
+// build tag, for the verification harness in /verif, to record which planner paths a run exercised.
+func VerifSetCandSourceHook(fn func(string)) func(string) {
+	old := candSourceHook
+	candSourceHook = fn
+	return old
+}
